@@ -21,7 +21,7 @@ func init() { register(c07{}) }
 func (c07) ID() string    { return "C07" }
 func (c07) Level() string { return "exploration" }
 func (c07) Rule() string {
-	return "frames (valid ones of all types from the library and the reference encoder, short forms, content-malformed ones, type 0) x delivery schedules allowed by io.Reader: ALL compositions of the frame length into chunk sizes for frames up to 10 bytes (14 in the thorough tier), and for longer frames all two-chunk splits (<=2 KiB), one byte at a time, random compositions and splits at every field boundary +-1; each schedule also with (0,nil) reads interleaved and with the final chunk delivered as (n, io.EOF). Oracle: differential against the same frame read from a contiguous reader (same accessor snapshot, or rejection in both). distinct = (frame digest, schedule); non-trivial = the schedule splits the frame or adds zero-length reads"
+	return "frames (valid ones of all types from the library and the reference encoder, short forms, content-malformed ones, type 0) x delivery schedules allowed by io.Reader: ALL compositions of the frame length into chunk sizes for frames up to 10 bytes (14 in the thorough tier), and for longer frames all two-chunk splits (<=2 KiB), one byte at a time, random compositions, splits at every field boundary +-1, and two frames pipelined in one stream (boundary inside one Read); each schedule also with (0,nil) reads interleaved and with the final chunk delivered as (n, io.EOF). Oracle: differential against the same frame read from a contiguous reader (same accessor snapshot, or rejection in both). distinct = (frame digest, schedule); non-trivial = the schedule splits the frame or adds zero-length reads"
 }
 func (c07) Assumptions() []string {
 	return []string{"schedules never violate the io.Reader contract (at most len(p) bytes, buffer not retained, (0,nil) only finitely often)", "error texts are not compared, only acceptance and accessor values"}
@@ -210,6 +210,37 @@ func (c07) Run(c *run.Ctx, phase, idx int) {
 		}
 		for i := 0; i < 6; i++ {
 			c07Variants(c, r, f, iso, randomSteps(r, n, false, 1+r.Intn(n)), "random")
+		}
+		// pipelined: the next frame's bytes may arrive in the same Read as
+		// the end of this one; neither result may depend on that
+		if n <= 4096 {
+			f2 := genFrame(r, gen.Small)
+			iso2 := readIsolated(f2.Bytes)
+			if !iso2.Panicked {
+				both := append(append([]byte(nil), f.Bytes...), f2.Bytes...)
+				scheds := [][]mon.Step{{{N: len(both)}}, {{N: n}, {N: len(f2.Bytes)}}, {{N: n + 1}, {N: len(both)}}, randomSteps(r, len(both), false, len(both)), randomSteps(r, len(both), true, 16)}
+				for si, steps := range scheds {
+					rd := &mon.ScriptedReader{Data: both, Steps: cloneSteps(steps)}
+					c.Current(func() string {
+						return fmt.Sprintf("ReadPacket x2 frames=%s schedule=%s", hexClip(both, 512), stepsString(steps))
+					})
+					r1 := mon.Read(rd)
+					r2 := mon.Read(rd)
+					c.Eval(2)
+					c.Distinct(run.HashBytes(run.Hash64("pipelined", itoa(si), stepsString(steps)), both), true)
+					c.Count("schedules", "pipelined", 1)
+					for k, pr := range []struct {
+						iso isolated
+						res mon.ReadResult
+					}{{iso, r1}, {iso2, r2}} {
+						if ok, why := sameOutcome(pr.iso, pr.res); !ok {
+							c.Violation("C07/pipelined/"+acceptWord(pr.iso.Accepted), fmt.Sprintf("two frames (%s %d bytes, %s %d bytes) delivered under schedule [%s]: frame %d %s", tname(f.Type), n, tname(f2.Type), len(f2.Bytes), stepsString(steps), k, why),
+								map[string]interface{}{"frames": hexClip(both, 2048), "first_len": n, "schedule": stepsString(steps)})
+							break
+						}
+					}
+				}
+			}
 		}
 		if c.WantSample() && n > 10 {
 			c.Sample(map[string]interface{}{"frame": hexClip(f.Bytes, 48), "type": tname(f.Type), "kind": f.Kind, "frame_len": n, "accepted_contiguously": iso.Accepted})
